@@ -89,7 +89,7 @@ static Verdict run_c05(const Case &c)
   v.classes.push_back("kind=" + kind);
   v.classes.push_back("cmode" + std::to_string(e.cmode));
   v.weight = files.size();
-  std::vector<DV> res = batch_dv(files, {e.key}, e.T, e.chunk);
+  std::vector<DV> res = batch_dv(files, {e.key}, e.T, e.chunk, e.refill);
   size_t known_hits = 0;
   for (size_t i = 0; i < files.size(); i++)
   {
